@@ -59,7 +59,13 @@ fn main() {
         let mut deb = new_debouncer(Duration::from_millis(100), None, tx).unwrap();
         deb.watch(dir.join("src"), RecursiveMode::Recursive).unwrap();
         std::thread::sleep(Duration::from_millis(150));
-        apply(&dir, &sc["edit"]);
+        if let Some(edits) = sc.get("edits").and_then(|e| e.as_array()) {
+            for e in edits {
+                apply(&dir, e);
+            }
+        } else {
+            apply(&dir, &sc["edit"]);
+        }
         let mut events = vec![];
         let mut quiet = 0;
         while quiet < 6 {
